@@ -667,7 +667,8 @@ class DataFrame:
         n = len(self.index)
         if isinstance(val, Series):
             if not val.index.same(self.index):
-                if not (val.index.unique_labels() and self.index.unique_labels()):
+                # pandas reindexes the assigned Series onto the frame's index: needs unique *source* labels only
+                if not val.index.unique_labels():
                     raise ValueError('cannot reindex on an axis with duplicate labels')
                 vals = []
                 for l in self.index.l:
